@@ -282,10 +282,23 @@ func runVec(rep *Report, v *Vec, rng *rand.Rand, fresh map[string]bool) {
 	if rng.Intn(4) == 0 {
 		typ = "ty\"pe/ü"
 	}
+	// "listed" is exact membership: spellings that differ from the event's type in letter case, surrounding blanks,
+	// one character more or less, or a pattern that would match it stand in the list of every vector and never make
+	// an unlisted type signed (nor a listed one unsigned)
+	near := []string{"other"}
+	if rng.Intn(3) > 0 {
+		for _, n := range []string{strings.ToUpper(typ), strings.ToUpper(typ[:1]) + typ[1:], typ + " ", " " + typ, typ[:len(typ)-1], typ + "x", "*", "type-*", ".*", ""} {
+			if n != typ {
+				near = append(near, n)
+			}
+		}
+		rng.Shuffle(len(near), func(i, j int) { near[i], near[j] = near[j], near[i] })
+	}
 	if v.V.Listed {
-		ff.SignEventTypes = []string{"other", typ}
+		k := rng.Intn(len(near) + 1)
+		ff.SignEventTypes = append(append(append([]string{}, near[:k]...), typ), near[k:]...)
 	} else {
-		ff.SignEventTypes = []string{"other"}
+		ff.SignEventTypes = near
 	}
 	switch v.V.Pred {
 	case "true":
